@@ -256,6 +256,7 @@ class State:
         self.binder_asms: list = []  # stack of lists collecting typing assumptions under quantifier binders
         self.call_records: list = []  # contract-abstracted calls in order (for replay)
         self.fresh_base: list = []
+        self.pending_live: list = []
         self.epoch = z3.Int("epoch0")
         self.epoch_entry = self.epoch
         self.epoch_stack: list = []
@@ -282,7 +283,26 @@ class State:
             self.entry_heap.setdefault(key, a)
             for snap in self.old_stack:
                 snap.setdefault(key, a)
+            self.assume_array_live(a, key, self.alloc_entry)
         return self.heap[key]
+
+    def assume_array_live(self, a, key, bound):
+        """Every reference stored in a heap array that stands for an earlier state points to an object that already
+        existed then (no dangling / future references)."""
+        r, i = z3.Ints("r!live i!live")
+        k = z3.Const("k!live", Val)
+        if key.startswith("f:") and not key.startswith("f:$"):
+            v = z3.Select(a, r)
+            ax = z3.ForAll([r], z3.Implies(smt.is_ref(v), smt.rid(v) < bound))
+        elif key in ("lel", "dkeys"):
+            v = z3.Select(z3.Select(a, r), i)
+            ax = z3.ForAll([r, i], z3.Implies(smt.is_ref(v), smt.rid(v) < bound))
+        elif key == "dget":
+            v = z3.Select(z3.Select(a, r), k)
+            ax = z3.ForAll([r, k], z3.Implies(smt.is_ref(v), smt.rid(v) < bound))
+        else:
+            return
+        self.pc.append(ax)
 
     def setarr(self, key, a, ref=None):
         cur = self.arr(key)
@@ -458,6 +478,8 @@ class State:
             r = smt.rid(t)
             cid = LIST_CID if k == "list" else TUPLE_CID
             small = self.container_tag(ty, r)
+            if k == "tuple" and ty.a:
+                small = small + [z3.Select(self.arr("llen"), r) == len(ty.a)]
             return z3.And(smt.is_ref(t), r > 0, r < self.alloc, z3.Select(self.arr("llen"), r) >= 0,
                           z3.Select(self.arr("cls"), r) == cid, *small)
         if k in ("dict", "set"):
@@ -1117,6 +1139,14 @@ class Interp:
                 return self.list_concat(a, b)
             if isinstance(a, PTuple) and isinstance(b, PTuple):
                 return PTuple(a.items + b.items)
+        if isinstance(op, ast.Mult) and isinstance(a, SV) and T.strip_opt(a.ty).k == "list" and z3.is_int_value(self.list_len(a)) \
+                and self.list_len(a).as_long() == 1:
+            # [x] * n: a fresh list of n copies of x (n < 0 gives the empty list)
+            n_, _ = self.num(b)
+            r = st.new_ref(LIST_CID)
+            st.heap["llen"] = z3.Store(st.arr("llen"), r, smt.simp(z3.If(n_ > 0, n_, 0)))
+            st.heap["lel"] = z3.Store(st.arr("lel"), r, z3.K(smt.I, self.list_get(a, z3.IntVal(0)).t))
+            return SV(smt.mk_ref(r), a.ty)
         if isinstance(op, (ast.BitAnd, ast.BitOr)):
             x, _ = self.num(a)
             y, _ = self.num(b)
@@ -1290,6 +1320,9 @@ class Interp:
                 s = REG.attr_types[key]
             if s is not None:
                 return T.parse_ann(ast.parse(s, mode="eval").body, c.module, c)
+            sa = c.self_annotations()
+            if name in sa:
+                return T.parse_ann(sa[name], c.module, c)
         return None
 
     def getattr(self, base, attr, fr, node=None):
